@@ -177,18 +177,21 @@ where
     let invalid = || Error::InvalidScalar { ty, location };
 
     let t = s.trim();
-    if t.starts_with('-') {
-        return Err(invalid());
-    }
-    let rest = t.strip_prefix('+').unwrap_or(t);
+    // A minus sign is fine as long as the value is zero: `-0` fits every unsigned width.
+    let (negative, rest) = match t.strip_prefix('-') {
+        Some(r) => (true, r),
+        None => (false, t.strip_prefix('+').unwrap_or(t)),
+    };
     let (radix, digits) = radix_and_digits(legacy_octal, rest);
 
-    if radix == 10 {
-        let val_u128 = parse_decimal_unsigned_u128(digits).ok_or_else(invalid)?;
-        return T::try_from(val_u128).map_err(|_| invalid());
+    let mag = if radix == 10 {
+        parse_decimal_unsigned_u128(digits).ok_or_else(invalid)?
+    } else {
+        parse_digits_u128(digits, radix).ok_or_else(invalid)?
+    };
+    if negative && mag != 0 {
+        return Err(invalid());
     }
-
-    let mag = parse_digits_u128(digits, radix).ok_or_else(invalid)?;
     T::try_from(mag).map_err(|_| invalid())
 }
 
